@@ -156,12 +156,13 @@ theorem dragonfly_hop_order (d : Dragonfly) (my tg : RCoord) :
   simp only []
   (repeat' split) <;> simp [DSlot.kind]
 
-/-- the full-strength statement "every hop leaves from the router the route is on and the hops lead to the target
-router" is FALSE on the current code: within a group, from chassis 1 the code takes the green link of chassis 1 and then
-continues from the router of chassis 0 (`currentRouter = &routers_[group * (C*B) + blade]`).
-1 group x 2 chassis x 2 routers: router (0,1,0) -> router (0,0,1): one green hop, believed to end on router 1 = (0,0,1),
-whereas the green link of chassis 1 ends on router 3 = (0,1,1); no black hop follows. -/
-theorem dragonfly_same_group_counterexample :
-    (⟨1, 2, 2, 1, false, false, true, 0⟩ : Dragonfly).steps ⟨0, 1, 0⟩ ⟨0, 0, 1⟩ = [⟨2, .green 1, true, 1⟩] := by decide
+/-- regression for the fixed defect (repo commit 20a422990d): within a group, after the green hop the route stays in
+the chassis it is in.  Before the fix the code continued from the router of chassis 0
+(`currentRouter = &routers_[group * (C*B) + blade]`) and this route was the single green hop `[⟨2, .green 1, true, 1⟩]`,
+which is disconnected: the green link of chassis 1 ends on router 3 = (0,1,1), not on router 1 = (0,0,1).
+1 group x 2 chassis x 2 routers: router (0,1,0) -> router (0,0,1) is now a green hop followed by a black hop. -/
+theorem dragonfly_same_group_regression :
+    (⟨1, 2, 2, 1, false, false, true, 0⟩ : Dragonfly).steps ⟨0, 1, 0⟩ ⟨0, 0, 1⟩ =
+      [⟨2, .green 1, true, 3⟩, ⟨3, .black 0, true, 3⟩] := by decide
 
 end SgVerif.C26
